@@ -279,3 +279,41 @@ package labelmap
 //@   ghostset at "mapped := op.GetMapped()": base = nset
 //@   ghostset at "vc.setMapping(v, supervoxel, mapped)": nset = nset + 1
 //@   invariant loop 2: nset == base + rangeindex + 1
+
+// handleIndex, POST (C20, C08): once the request has been answered with a client error (e.g. the posted
+// protobuf does not parse) the stored index of the label is neither deleted nor replaced.
+//@ func Data.handleIndex
+//@   prop C20 C08
+//@   requires d != nil
+//@   safety_off
+//@   requires_off
+//@   modifies *
+//@   ghost errReplied bool = arbitrary()
+//@   modifies ghost errReplied
+//@   ghostset at "queryStrings := r.URL.Query()": errReplied = false
+//@   assert at "if err := deleteLabelIndex(ctx, label); err != nil {": !errReplied
+//@   assert at "if err := putCachedLabelIndex(d, ctx.VersionID(), idx); err != nil {": !errReplied
+
+// handleMappings / handleIndices, POST (C20): nothing is ingested or stored after the request has been
+// answered with a client error (unreadable body, protobuf that does not parse).
+//@ func Data.handleMappings
+//@   prop C20 C08
+//@   requires d != nil
+//@   safety_off
+//@   requires_off
+//@   modifies *
+//@   ghost errReplied bool = arbitrary()
+//@   modifies ghost errReplied
+//@   ghostset at "queryStrings := r.URL.Query()": errReplied = false
+//@   assert at "if err := d.ingestMappings(ctx, &mappings); err != nil {": !errReplied
+
+//@ func Data.handleIndices
+//@   prop C20 C08
+//@   requires d != nil
+//@   safety_off
+//@   requires_off
+//@   modifies *
+//@   ghost errReplied bool = arbitrary()
+//@   modifies ghost errReplied
+//@   ghostset at "queryStrings := r.URL.Query()": errReplied = false
+//@   assert at "numAdded, numDeleted, err := putProtoLabelIndices(ctx, dataIn)": !errReplied
